@@ -285,22 +285,16 @@ def r20_7(cx):
     b = cx.body('packed::pattern::Patterns::add')
     rows = [r for r in summarize(cx.facts, b) if r.end == 'return']
     BY = cstr(param_at(b, 2))
-    why = None
-    if len(rows) != 1:
-        why = '%d returning paths (every pattern handed to the packed table must take the next id; a skipped pattern shifts all later ids)' % len(rows)
-    else:
-        r = rows[0]
+    why = None if rows else 'add never returns'
+    for r in rows:
         pushes = [canon(c) for c in r.calls(r'Vec.*::push$')]
         tg = sorted(cstr(c[2][0]) for c in pushes)
         if tg != ['self.by_id', 'self.order']:
-            why = 'add pushes to %s (expected self.order and self.by_id once each)' % tg
-        else:
-            oid = [c[2][1] for c in pushes if cstr(c[2][0]) == 'self.order'][0]
-            if 'core::slice::len(self.by_id)' not in cstr(oid).replace('alloc::vec::Vec::len', 'core::slice::len') and 'len(self.by_id)' not in cstr(oid):
-                why = 'the id pushed is %s, not by_id.len()' % tstr(oid, 80)
-            conds = [cstr(canon(c)) for c, v in r.conds if not re.search(r'is_empty|Le\(|Lt\(|discr\(util::primitives::PatternID::new', cstr(canon(c)))]
-            if conds:
-                why = why or 'whether a pattern is stored depends on %s' % conds[:2]
+            why = why or 'a path of add pushes to %s (expected self.order and self.by_id once each: every pattern handed to the packed table must take the next id; a skipped pattern shifts all later ids)' % tg
+            continue
+        oid = [c[2][1] for c in pushes if cstr(c[2][0]) == 'self.order'][0]
+        if 'len(self.by_id)' not in cstr(oid):
+            why = why or 'the id pushed is %s, not by_id.len()' % tstr(oid, 80)
     cx.report('R20.7', b, 'packed-ids', why is None, 'packed::Patterns::add stores every pattern under id = by_id.len() (ids stay aligned with the automaton\'s)' if why is None else 'packed::Patterns::add: ' + why)
 
 
